@@ -394,6 +394,7 @@ func (e *Engine) dischargePath(fn *ssa.Function, po *pathOutcome, pathNo int, w 
 			r.Verdict = "unconfirmed"
 			if ob.Kind == "range" {
 				r.Note += " tracked-range obligation of the algebraic model (engine-only: the bound is on intermediate values, not on inputs)"
+				e.confirmByNativeRun(fn, x, ob, r, opts)
 			} else if ob.Kind == "separation" {
 				r.Note += " write-set separation obligation (engine-only: a written object is shared between the two parties; natively this is a potential data race, not a reproducible failure)"
 			} else if ob.Kind == "lemma" {
@@ -469,6 +470,40 @@ func (e *Engine) confirmBySearch(fn *ssa.Function, x *Exec, ob *Obligation, r *O
 		r.Note += fmt.Sprintf("; native witness found by the registered search: %v", nr.Observed)
 	} else {
 		r.Note += "; the native witness search found no end-to-end witness" + firstLine(nr.Panic)
+	}
+}
+
+// confirmByNativeRun: a refuted range obligation of the algebraic model says that the real code may wrap around
+// 2^64 at that point; the harness is run natively (real samplers, realistic primes, fixed seed) and any of its
+// assertions that fails there is the reproducible end-to-end witness.
+func (e *Engine) confirmByNativeRun(fn *ssa.Function, x *Exec, ob *Obligation, r *OblResult, opts *RunOptions) {
+	if opts.SelfExe == "" || opts.ReplayDir == "" {
+		return
+	}
+	e.nativeMu.Lock()
+	defer e.nativeMu.Unlock()
+	if e.nativeRuns == nil {
+		e.nativeRuns = map[string]*NativeResult{}
+	}
+	path := filepath.Join(opts.ReplayDir, fmt.Sprintf("%s_native-run.json", fn.Name()))
+	nr, ok := e.nativeRuns[fn.Name()]
+	if !ok {
+		rf := ReplayFile{Package: fn.Pkg.Pkg.Path(), Harness: fn.Name(), Obligation: ob.ID, Kind: "native-run", Where: ob.Where,
+			Inputs: map[string]string{"@seed": "88172645463325252"},
+			Note:   "native run of the harness after the solver refuted a tracked-range obligation: " + ob.Where}
+		os.MkdirAll(opts.ReplayDir, 0o755)
+		b, _ := json.MarshalIndent(rf, "", " ")
+		os.WriteFile(path, b, 0o644)
+		res := RunNativeReplay(opts.SelfExe, path, 300*time.Second)
+		nr = &res
+		e.nativeRuns[fn.Name()] = nr
+	}
+	if len(nr.Failed) > 0 || nr.Panic != "" || nr.Crashed {
+		r.Verdict = "violated"
+		r.Replay = path
+		r.Note += fmt.Sprintf("; native run of the harness fails: %v %s", nr.Failed, firstLine(nr.Panic))
+	} else {
+		r.Note += "; the native run of the harness shows no failure"
 	}
 }
 
